@@ -15,7 +15,7 @@ from nutils import evaluable as ev
 import treelog
 
 PID = 'C03'
-PATTERNS = ['all', 'some', 'same-object']
+PATTERNS = ['all', 'some', 'same-object', 'failed-first']     # failed-first: the very first call is aborted by an exception (an argument of the wrong shape), then three valid calls
 
 def flat_arrays(r):
     if isinstance(r, (tuple, list)):
@@ -28,7 +28,7 @@ def sequence(e, names, pattern, f, symbolic=True, concrete=None):
     argsets = []
     for k in range(3):
         if symbolic:
-            vals, _ = progs.symbolic_args(names, prefix=f'c{k}_' if (pattern == 'all' or k == 0) else '')
+            vals, _ = progs.symbolic_args(names, prefix=f'c{k}_' if (pattern in ('all', 'failed-first') or k == 0) else '')
             if pattern == 'some' and k > 0:
                 # only the first argument changes, the others keep the values (and array objects) of call 0
                 new, _ = progs.symbolic_args(names[:1], prefix=f'c{k}_')
@@ -38,6 +38,13 @@ def sequence(e, names, pattern, f, symbolic=True, concrete=None):
         else:
             vals = concrete[k]
         argsets.append(vals)
+    if pattern == 'failed-first' and names:
+        bad = dict(argsets[0])
+        n0 = names[-1]; v0 = bad[n0]
+        shape = tuple(v0.shape) + (2,)
+        bad[n0] = SArray.symbolic('bad_' + n0, shape, v0.kind) if symbolic else numpy.zeros(shape, dtype=numpy.asarray(v0).dtype)
+        try: f(bad)
+        except Exception: pass
     writes = []
     for k, vals in enumerate(argsets):
         before = {n: (v.a.copy() if isinstance(v, SArray) else numpy.array(v, copy=True)) for n, v in vals.items()}
